@@ -864,10 +864,10 @@ func (s *SecureChannel) scheduleRenewal(instance *channelInstance) {
 
 	simhook.Yield("uasc.renewTimerFired")
 	// TODO: where should this error go?
-	_ = s.renew(instance)
+	_ = s.renew(context.Background(), instance)
 }
 
-func (s *SecureChannel) renew(instance *channelInstance) error {
+func (s *SecureChannel) renew(ctx context.Context, instance *channelInstance) error {
 	// lock ensure no one else renews this at the same time
 	simhook.Yield("uasc.renew.enter")
 	s.reqLocker.lock()
@@ -877,7 +877,7 @@ func (s *SecureChannel) renew(instance *channelInstance) error {
 	instance.Lock()
 	defer instance.Unlock()
 
-	return s.open(context.Background(), instance, ua.SecurityTokenRequestTypeRenew)
+	return s.open(ctx, instance, ua.SecurityTokenRequestTypeRenew)
 }
 
 func (s *SecureChannel) scheduleExpiration(instance *channelInstance) {
@@ -988,7 +988,7 @@ func (s *SecureChannel) Renew(ctx context.Context) error {
 		return err
 	}
 
-	return s.renew(instance)
+	return s.renew(ctx, instance)
 }
 
 func (s *SecureChannel) SendRequest(ctx context.Context, req ua.Request, authToken *ua.NodeID, h ResponseHandler) error {
